@@ -1274,3 +1274,105 @@ func (c *Ctx) wordsTable() map[string]string {
 	}
 	return out
 }
+
+// ---------------------------------------------------------------------------
+// GR7: the body of a function definition is a compound command.
+
+func ruleGR7() Rule {
+	return Rule{ID: "GR7", Kind: "agreement", Floor: 1,
+		Doc: "POSIX: function_body : compound_command [redirect_list]. In the grammar, whatever follows `NAME '(' ')' linebreak` in a function definition cannot begin with a word, an assignment, an IO number, a redirection operator, `!` or another NAME (FIRST of that symbol is a subset of the openers of compound commands): `f() echo hi` and `f() >out` must be rejected - the grammar is the only guard",
+		Run: func(c *Ctx, rr *core.RuleResult) {
+			gi := c.grammar("parser")
+			if gi.Err != nil {
+				rr.Unkp(c.P, "parser|grammar", 0, gi.Err.Error())
+				return
+			}
+			g := gi.G
+			firstOf := firstSets(g)
+			simple := map[string]bool{"WORD": true, "NAME": true, "ASSIGNMENT_WORD": true, "IO_NUMBER": true, "Bang": true, "'<'": true, "'>'": true, "CLOBBER": true, "APPEND": true, "HEREDOC": true, "HEREDOCI": true, "DUPIN": true, "DUPOUT": true, "RDWR": true}
+			n := 0
+			for _, p := range g.Prods {
+				// NAME '(' ')' … X
+				for i := 0; i+2 < len(p.RHS); i++ {
+					if p.RHS[i] != "NAME" || p.RHS[i+1] != "'('" || p.RHS[i+2] != "')'" {
+						continue
+					}
+					// the body: the last symbol of the production
+					body := p.RHS[len(p.RHS)-1]
+					if body == "')'" {
+						continue
+					}
+					n++
+					key := fmt.Sprintf("parser|function body `%s`", p)
+					var bad []string
+					if g.IsTerminal(body) {
+						if simple[body] {
+							bad = append(bad, body)
+						}
+					} else {
+						for t := range firstOf[body] {
+							if simple[t] {
+								bad = append(bad, t)
+							}
+						}
+					}
+					sort.Strings(bad)
+					if len(bad) == 0 {
+						rr.OKp(c.P, key, gi.AstFile.Pos(), "compound", "the body can only begin with the opener of a compound command")
+					} else {
+						rr.Badp(c.P, key, gi.AstFile.Pos(), fmt.Sprintf("the body of a function definition can begin with %v: a simple command (or a bare redirection, or another function definition) is accepted as a function body, which POSIX's grammar rejects", bad))
+					}
+				}
+			}
+			if n == 0 {
+				rr.Unkp(c.P, "parser|function definition", gi.AstFile.Pos(), "no production of the form NAME '(' ')' … body found")
+			}
+		}}
+}
+
+// firstSets computes FIRST for every nonterminal of a grammar.
+func firstSets(g *Grammar) map[string]map[string]bool {
+	isTerm := func(s string) bool {
+		if strings.HasPrefix(s, "'") {
+			return true
+		}
+		_, ok := g.Tokens[s]
+		return ok
+	}
+	nullable := map[string]bool{}
+	first := map[string]map[string]bool{}
+	for changed := true; changed; {
+		changed = false
+		for _, p := range g.Prods {
+			if first[p.LHS] == nil {
+				first[p.LHS] = map[string]bool{}
+			}
+			allNull := true
+			for _, s := range p.RHS {
+				if isTerm(s) {
+					if !first[p.LHS][s] {
+						first[p.LHS][s] = true
+						changed = true
+					}
+					allNull = false
+					break
+				}
+				for t := range first[s] {
+					if !first[p.LHS][t] {
+						first[p.LHS][t] = true
+						changed = true
+					}
+				}
+				if !nullable[s] {
+					allNull = false
+					break
+				}
+			}
+			if allNull && !nullable[p.LHS] {
+				nullable[p.LHS] = true
+				changed = true
+			}
+		}
+	}
+	return first
+}
